@@ -5,6 +5,7 @@ package dnsforward
 import (
 	"crypto/tls"
 	"net"
+	"net/http"
 	"net/netip"
 
 	"github.com/AdguardTeam/AdGuardHome/internal/aghnet"
@@ -164,3 +165,9 @@ func (s *Server) VerifProxyAddr(proto proxy.Proto) net.Addr {
 func (s *Server) VerifNewContext(proto proxy.Proto, req *dns.Msg, addr netip.AddrPort) (pctx *proxy.DNSContext) {
 	return s.proxy().VerifNewDNSContext(proto, req, addr)
 }
+
+// VerifClearCache empties the proxy's answer cache.
+func (s *Server) VerifClearCache() { s.proxy().ClearCache() }
+
+// VerifAccessSet is the handler of POST /control/access/set.
+func (s *Server) VerifAccessSet(w http.ResponseWriter, r *http.Request) { s.handleAccessSet(w, r) }
